@@ -389,6 +389,11 @@ class DictList(list):
     def insert(self, index: int, entity: Object) -> None:
         """Insert entity before index."""
         self._check(entity.id)
+        # list.insert clips the index to the list; the id index has to agree
+        if index < 0:
+            index = max(0, index + len(self))
+        elif index > len(self):
+            index = len(self)
         list.insert(self, index, entity)
         # all subsequent entries now have been shifted up by 1
         _dict = self._dict
